@@ -349,4 +349,91 @@ example : datumOf store (.vec 1) = .vec [datumOf store (.bool true), datumOf sto
   exact h3
 end Example
 
+/-! ## 7. End to end: evaluating the quoted text -/
+
+/-- QUOTED_TEXT_EVALUATES_EQUAL. Take the text `display` prints for a readable value `v` (of a
+store `σ`), put a quote mark in front of it and hand it to the interpreter (`Interpreter::eval`,
+in any state `st`, with any non-zero fuel): the lexer, the reader, `transform_to_statement` and
+the evaluator together deliver — without error — a value structurally equal to `v`, of the same
+exactness; the only effect on the interpreter is that its store has grown (by the cells of the
+vectors read back). -/
+theorem quoted_text_evaluates_equal (σ : Store) (v : Value) (fuel : Nat) (hv : Readable σ v)
+    (hf : (datumOf σ v).size ≤ fuel) (st : Interp.State) (k : Nat) :
+    ∃ w st', Interp.evalText (k + 1) st ('\'' :: (Prim.display σ fuel v).toList)
+        = (.ok (some w), st') ∧
+      Extends st.store st'.store ∧ st'.env = st.env ∧ equalV σ v st'.store w := by
+  obtain ⟨ht, -, hs⟩ := display_is_render σ v fuel hv hf
+  obtain ⟨w, τ', h1, h2, h3⟩ := readsBack_datumN σ _ v hv st.store
+  obtain ⟨st', e1, e2, e3⟩ := evalText_quote k st (datumOf σ v) hs (datumOf_strip σ v) w τ' h1
+  rw [← ht] at e1
+  exact ⟨w, st', e1, e2 ▸ h2, e3, e2 ▸ h3⟩
+
+/-- The usual case: the value is printed and read back by the same interpreter. -/
+theorem quoted_text_evaluates_equal_same (st : Interp.State) (v : Value) (fuel : Nat)
+    (hv : Readable st.store v) (hf : (datumOf st.store v).size ≤ fuel) (k : Nat) :
+    ∃ w st', Interp.evalText (k + 1) st ('\'' :: (Prim.display st.store fuel v).toList)
+        = (.ok (some w), st') ∧
+      Extends st.store st'.store ∧ equalV st'.store v st'.store w := by
+  obtain ⟨w, st', h1, h2, -, h3⟩ := quoted_text_evaluates_equal st.store v fuel hv hf st k
+  exact ⟨w, st', h1, h2, h3.mono_left h2⟩
+
+section Example
+/-- `'(1 -1/2 #\a (x . y) #(#t ()))` evaluates to a value equal to the sample -/
+example : ∃ w st', Interp.evalText 1 { store := store } ('\'' :: text.toList) = (.ok (some w), st')
+    ∧ equalV store value st'.store w := by
+  obtain ⟨w, st', h1, -, -, h3⟩ :=
+    quoted_text_evaluates_equal store value 100000 (by decide) (by decide) { store := store } 0
+  have e : Prim.display store 100000 value = text := by
+    rw [display_is_show store value 100000 (by decide) (by decide)]; decide
+  rw [e] at h1
+  exact ⟨w, st', h1, h3⟩
+end Example
+
+/-! ## Where a fuller statement fails -/
+
+/-- FULL symbol coverage: the round trip for *every* symbol, whatever its spelling. -/
+def display_read_roundtrip_full : Prop :=
+  ∀ (σ : Store) (s : String) (fuel : Nat), 0 < fuel →
+    ∃ d, Read.all (Prim.display σ fuel (.sym s)).toList = ([d], none) ∧ d.strip = .sym s none
+
+/-- It fails: `display` writes a symbol's spelling as it is (no bars, no escapes), so the symbol
+with the empty spelling prints as nothing at all — and, likewise, `a b` (which `'|a b|`
+evaluates to) prints as the two symbols `a` and `b`, `1` as a number. Hence "plain symbols" in the
+property and `isPlainIdent` in `Readable`. -/
+theorem display_read_roundtrip_full_fails : ¬ display_read_roundtrip_full := by
+  intro h
+  obtain ⟨d, h1, -⟩ := h {} "" 1 (by decide)
+  have h2 : Read.all (Prim.display {} 1 (.sym "")).toList = ([], none) := by
+    have : Prim.display {} 1 (.sym "") = "" := rfl
+    rw [this]
+    simp [Read.all, Read.ofText, Lex.all, Lex.allAux, Lex.next, Lex.skipAtmosphere, Lex.token,
+      Read.allAux, Read.nextDatum, Read.advance, Read.currentDatum, Read.fuelFor, bind,
+      Except.bind]
+  rw [h2] at h1
+  cases h1
+
+/-- a second witness: the symbol `a b` is printed as `a b`, which reads as two data -/
+example : (Read.all (Prim.display {} 1 (.sym "a b")).toList).1.map Datum.strip
+    = [.sym "a" none, .sym "b" none] := by
+  have h := (C06.read_render_many [.atom (.ident "a"), .atom (.ident "b")]
+    ⟨⟨rfl, Or.inl (by decide)⟩, ⟨rfl, Or.inl (by decide)⟩, trivial⟩ [[], [' '], []] (by decide)).1
+  exact h
+
+/-- the partial version: `display_read_roundtrip` (plain symbols) -/
+theorem display_read_roundtrip_partial (σ : Store) (s : String) (fuel : Nat) (hf : 0 < fuel)
+    (hs : isPlainIdent s.toList = true) :
+    ∃ d, Read.all (Prim.display σ fuel (.sym s)).toList = ([d], none) ∧ d.strip = .sym s none := by
+  have hv : Readable σ (.sym s) := by
+    unfold Readable; cases σ.vecs.size <;> exact hs
+  have e : datumOf σ (.sym s) = .sym s none := by
+    unfold datumOf; cases σ.vecs.size <;> rfl
+  have h := display_read_roundtrip σ (.sym s) fuel hv (by rw [e]; exact hf)
+  rw [e] at h
+  exact h
+
+/-- Strings are outside the property for the same reason: `display` writes the characters of a
+string without quotes, so the text does not read back as a string (`x y` reads as two symbols). -/
+theorem string_display_unquoted (σ : Store) (f : Nat) (s : String) :
+    Prim.display σ (f + 1) (.str s) = s := rfl
+
 end Ruschm.C16
